@@ -55,6 +55,24 @@ func runC08(ctx *core.Ctx) {
 	ctx.Cases("c08", n, 4*workers(), func(i int, r *rand.Rand) {
 		execC08(ctx, genEvSliding(core.CaseRef{Stream: "c08", Index: i}, r))
 	})
+	// back-pressure: the trigger goroutine is held up by a full window output buffer while more than 100 rows
+	// that each advance the watermark are ingested, then the source goes quiet: every due interval is owed
+	nbp := ctx.N(2, 24)
+	ctx.Cases("c08bp", nbp, 8, func(i int, r *rand.Rand) {
+		ss := pick(r, [][2]int64{{2000, 1000}, {3000, 1000}, {1000, 1000}})
+		c := &evCase{CaseRef: core.CaseRef{Stream: "c08bp", Index: i}, Kind: "sliding", SizeMs: ss[0], SlideMs: ss[1], Pattern: "backpressure", Feed: "burst", Grouped: r.Intn(2) == 0}
+		c.WinOut = 1
+		c.SinkDelayMs = 15 + r.Intn(25)
+		n := 220 + r.Intn(250)
+		t := int64(5000)
+		for j := 1; j <= n; j++ {
+			t += 40 + int64(r.Intn(120))
+			c.Rows = append(c.Rows, evRow{ID: j, TS: t, K: plainKeys[r.Intn(2)], V: r.Intn(50)})
+		}
+		c.Tail = t + 6*c.SizeMs + 6*c.SlideMs
+		c.buildSQL()
+		execC08(ctx, c)
+	})
 	for k, v := range sched.Hits() {
 		ctx.Count("hook_hits."+k, v)
 	}
